@@ -3,7 +3,7 @@
    and has exactly p's v-structures.  [wf_pdag p]: endpoints are nodes, no self loops, at most one edge per pair;
    acyclicity of the directed layer is NOT assumed (a cyclic layer simply has no extension). *)
 From Coq Require Import List Arith Bool Lia.
-From PG Require Import Base.ListSet Base.Sx Graph.MGraph C04.Dag C04.Model C05.Model.
+From PG Require Import Base.ListSet Base.Sx Graph.MGraph C04.Dag C04.Model C04.Spec C05.Model.
 Import ListNotations.
 
 Definition pdag_sound_stmt : Prop := forall p d, wf_pdag p -> pdag_model p = Some d -> consistent_ext p d.
@@ -16,7 +16,12 @@ Definition pdag_total_stmt : Prop := forall qual p fuel, length (V p) <= fuel ->
 Definition pdag_complete_code_refuted_stmt : Prop :=
   exists p, wf_pdag p /\ pdag_code p = None /\ exists d, consistent_ext p d.
 
-(* consequences, FULL statements (need Chickering's theorem for dag_to_cpdag; proved for n<=4 in Bounded_4.v) *)
+(* consequence 2, unbounded, proved (C05/Roundtrip.v): dag_to_cpdag followed by pdag_to_dag is Markov equivalent to d *)
+Definition roundtrip_equiv_stmt : Prop := forall d ord, is_dag d -> topo d ord ->
+  exists cg d', cpdag_graph d ord = Some cg /\ pdag_model cg = Some d' /\ consistent_ext cg d' /\ meq d d'.
+
+(* both consequences incl. the fixpoint pdag_to_cpdag (cpdag d) = cpdag d: FULL statement; the fixpoint part needs Chickering's
+   theorem for dag_to_cpdag and is proved for n<=5 only (C05/Bounded_5.v) *)
 Definition roundtrip_stmt (d : mgraph) (ord : list nat) : Prop :=
   exists c d', cpdag_graph d ord = Some c /\ pdag_model c = Some d' /\ meq d d' /\
     exists c', cpdag_graph d' (some_topo d') = Some c' /\ graph_eqb c c' = true.
